@@ -3,6 +3,7 @@ package main
 
 import (
 	"verif/mcx"
+	_ "verif/props/c01"
 	_ "verif/props/c02"
 	_ "verif/props/c03"
 	_ "verif/props/c05"
